@@ -4,18 +4,23 @@
  *     do { remainder = ud % base; *(p++) = digit(remainder); } while (ud /= base);   -- loop 0
  *     *p = 0; p2 = p - 1; while (p1 < p2) { swap(*p1, *p2); p1++; p2--; }            -- loop 1
  *
- * Proof structure (see units/C07/NOTES.md):
- *  loop 0  width-bounded (<= 64 iterations): unwound completely.  The reference of the property
- *          (d_0 = v mod b, v_1 = v div b, ... until 0) runs in lock-step as ghost code: g_q is the
- *          reference's quotient, started from the *spec* magnitude g_mag (not from the code's ud),
- *          g_i the number of digits emitted, g_refc the reference's character for the digit with
- *          index g_j (least significant first).  Every iteration asserts ud == g_q; after that
- *          assertion the ghost step is computed from `ud` (the same value), which lets the back
- *          end share one divider between code and reference instead of proving two 64-bit
- *          dividers equivalent.
- *  loop 1  closed by an invariant over the ghost index g_k (digit index, most significant
- *          first): position g_k and its mirror hold the two recorded characters g_ma / g_mb,
- *          swapped iff the position has been passed.
+ * Proof structure (see units/C07/NOTES.md): both loops are bounded by the width of the type
+ * (<= 64 digits, <= 32 swaps) and are unwound completely.
+ *  loop 0  The reference of the property (d_0 = v mod b, v_1 = v div b, ... until 0) runs in
+ *          lock-step as ghost code: g_q is the reference's quotient, started from the *spec*
+ *          magnitude g_mag (not from the code's ud), g_i the number of digits emitted, g_refc the
+ *          reference's character for the digit with index g_j (least significant first).  Every
+ *          iteration asserts ud == g_q; after that assertion the ghost step is computed from `ud`
+ *          (the same value), which lets the back end share one divider between code and reference
+ *          instead of proving two 64-bit dividers equivalent (which no back end finishes).
+ *          After the loop one assertion ties the reference to the closed form: it emitted exactly
+ *          g_len = (least n with mag < base^n) digits and p is right behind them.
+ *  loop 1  in-place reversal: the harness reads the final buffer at the ghost index and compares
+ *          with g_refc (g_j == g_len - 1 - g_k: the k-th character from the left is the j-th digit).
+ *  cuts    `assert(c); assume(c);` pairs (iteration bound per base, digit count after loop 0) are
+ *          proof cuts, not assumptions: the assert is an obligation of the same run, the assume
+ *          only stops the solver from re-deriving it (cbmc's own loop-contract instrumentation
+ *          and --unwinding-assertions work the same way).
  */
 #ifndef C07_TOA_H
 #define C07_TOA_H
@@ -26,8 +31,8 @@ unsigned g_maxlen;            /* digits of the largest magnitude of the type: lo
 unsigned g_i, g_len;          /* digits emitted so far; number of digits per the spec               */
 unsigned g_j, g_k;            /* ghost indices: digit index LS-first / MS-first (g_j == g_len-1-g_k) */
 unsigned g_neg;               /* 1 iff a '-' is expected at buf[0]                                   */
-unsigned g_n, g_t;            /* reversal: number of characters to reverse, swaps done               */
-char g_refc, g_ma, g_mb, *g_s;
+unsigned g_n, g_t;            /* loop counters of the reversal / parser loops (iteration bounds)     */
+char g_refc;                 /* character of the reference for the digit g_j                        */
 
 /* Exact-size output buffer without a symbolic-size object (which costs 5-10x in the array
  * theory): a fixed array in which the n bytes the routine may touch are aligned either at the
